@@ -208,4 +208,77 @@ def erun (s : EState) : List Nat → EState
     | some s' => erun s' as
     | none => erun s as
 
+/-! ## persistence of the registry (`savePipes` / `loadPipes`, `Service.Init`, `Service.Shutdown`)
+
+`pipes.dat` holds the list of the pipe definitions as of the last `savePipes` call. `savePipes` snapshots the
+whole registry under the lock and writes it; *which* operations call it is read from the source by the
+extractor (`createSaves`, `deleteSaves`, `shutdownSaves`). `Init` loads the file (absent file = empty
+registry), builds every pipe with `newPPipe` again and **fails** when one is refused. The JSON codec is a
+contract: what is saved is what is loaded (C07 exercises torn files). The map's iteration order at save
+time is irrelevant to everything proved about the registry (`listing_order_independent`), so the saved
+list is the registry list itself. -/
+
+structure PCfg where
+  createSaves : Bool
+  deleteSaves : Bool
+  shutdownSaves : Bool
+deriving DecidableEq, Repr
+
+structure PState where
+  mem : Reg
+  disk : Option (List Pipe)      -- `none` = no pipes.dat yet
+
+inductive POp where
+  | op (o : Op)        -- an operation of a running server
+  | restart            -- clean stop (`Shutdown`) and start (`Init`) on the same directory
+  | crash              -- the process dies (no `Shutdown`), then `Init` on what is on disk
+
+/-- `Init`: `none` = the server refuses to start (a stored pipe is refused by `newPPipe`) -/
+def pload (acc : Pipe → Bool) (disk : Option (List Pipe)) : Option Reg :=
+  let l := disk.getD []
+  if l.all acc then some l else none
+
+/-- does the operation change the registry? (a create / ensure of a fresh name whose conditions parse, a delete of an existing name) -/
+def changes (r : Reg) : Op → Bool
+  | .create p ok => (r.find p.name).isNone && ok
+  | .ensure p ok => (r.find p.name).isNone && ok
+  | .delete n => (r.find n).isSome
+  | .get _ => false
+
+/-- whether the conditions parse is a function of the definition (`acc`), not a free input -/
+def withAcc (acc : Pipe → Bool) : Op → Op
+  | .create p _ => .create p (acc p)
+  | .ensure p _ => .ensure p (acc p)
+  | o => o
+
+/-- `savePipes` runs after a successful create (also the one inside ensure) and after a successful delete -/
+def savesAfter (cfg : PCfg) (r : Reg) (o : Op) : Bool :=
+  changes r o && (match o with
+    | .create _ _ => cfg.createSaves
+    | .ensure _ _ => cfg.createSaves
+    | .delete _ => cfg.deleteSaves
+    | .get _ => false)
+
+/-- an operation of a running server on the persistent state (this is what the model driver executes; the
+acceptance bit of the conditions travels with the operation) -/
+def opStep (cfg : PCfg) (s : PState) (o : Op) : PState × Res :=
+  (⟨(step s.mem o).1, if savesAfter cfg s.mem o then some (step s.mem o).1 else s.disk⟩, (step s.mem o).2)
+
+/-- one step; the second component is the operation's result, `none` for a (re)start, `some .failed` for a refused start -/
+def pstep (cfg : PCfg) (acc : Pipe → Bool) (s : PState) : POp → PState × Option Res
+  | .op o => ((opStep cfg s (withAcc acc o)).1, some (opStep cfg s (withAcc acc o)).2)
+  | .restart =>
+    let disk := if cfg.shutdownSaves then some s.mem else s.disk
+    match pload acc disk with
+    | some m => (⟨m, disk⟩, none)
+    | none => (⟨[], disk⟩, some .failed)
+  | .crash =>
+    match pload acc s.disk with
+    | some m => (⟨m, s.disk⟩, none)
+    | none => (⟨[], s.disk⟩, some .failed)
+
+def prun (cfg : PCfg) (acc : Pipe → Bool) (s : PState) : List POp → PState
+  | [] => s
+  | o :: os => prun cfg acc (pstep cfg acc s o).1 os
+
 end Logrange.Registry
